@@ -58,7 +58,7 @@ def generate(ctx):
             ghosts = run.__dict__.get("prefix_ghosts", [])
             searches = run.__dict__.get("searches", [])
             ok = len(perms) == 1 and len(ghosts) == 1 and len(searches) == 1
-            run.oblige("one-sort-one-cumulative-sum-one-search", SBool(ok), kind="post", props=P)
+            run.oblige("one-sort-one-cumulative-sum-one-search", SBool(ok), kind="post", props=P, meta={"structural": True})
             if not ok:
                 return
             pi, gh, se = perms[0], ghosts[0], searches[0]
